@@ -257,5 +257,87 @@ theorem search_top (fx : Fixes) (hv : fx.v11 = true) (ff : G) (fuel : Nat) (hf :
     · simp [AL.get?] at h
     · exact h
 
+
+/-! ### `leave_document`: errors ⇔ some recorded fragment reaches itself -/
+
+/-- no fragment is recorded as spreading itself (direct self-spreads are reported when met and never recorded) -/
+def NoSelf (ff : G) : Prop := ∀ f, f ∉ succ ff f
+
+theorem cycFuel_ge (ff : G) : (VC.univ ff).length ≤ cycFuel ff := by
+  have := VC.foldl_len_ge ff 2
+  unfold cycFuel VC.univ at *
+  omega
+
+theorem get?_search_none_iff (fx : Fixes) (hv : fx.v11 = true) (ff : G) (outer : String) :
+    AL.get? (cycSearch fx ff (cycFuel ff) outer [] []) outer = none ↔ ¬ ReachPlus ff outer outer := by
+  have h := (search_top fx hv ff (cycFuel ff) (cycFuel_ge ff) outer).1 outer
+  rw [← h]
+  simp only [vis, AL.has_eq_isSome]
+  cases AL.get? (cycSearch fx ff (cycFuel ff) outer [] []) outer <;> simp
+
+theorem cycStep_acyclic (fx : Fixes) (hv : fx.v11 = true) (ff : G) (st : Nat × List String × Bool) (outer : String)
+    (h : ¬ ReachPlus ff outer outer) : cycStep fx ff st outer = st := by
+  unfold cycStep
+  simp only [(get?_search_none_iff fx hv ff outer).mpr h]
+
+theorem cycStep_mono (fx : Fixes) (ff : G) (st : Nat × List String × Bool) (outer : String) :
+    st.1 ≤ (cycStep fx ff st outer).1 := by
+  unfold cycStep
+  simp only
+  split
+  · exact Nat.le_refl _
+  · split
+    · exact Nat.le_refl _
+    · split
+      · exact Nat.le_refl _
+      · exact Nat.le_succ _
+
+theorem foldl_cycStep_mono (fx : Fixes) (ff : G) (ks : List String) (st : Nat × List String × Bool) :
+    st.1 ≤ (ks.foldl (cycStep fx ff) st).1 := by
+  induction ks generalizing st with
+  | nil => exact Nat.le_refl _
+  | cons k ks ih => rw [List.foldl_cons]; exact Nat.le_trans (cycStep_mono fx ff st k) (ih _)
+
+/-- the first cyclic fragment met is reported (nothing is in `cyclic` yet, and the stored path ends in a predecessor,
+    which is not the fragment itself) -/
+theorem cycStep_cyclic (fx : Fixes) (hv : fx.v11 = true) (ff : G) (hns : NoSelf ff) (n : Nat) (b : Bool) (outer : String)
+    (h : ReachPlus ff outer outer) : (cycStep fx ff (n, [], b) outer).1 = n + 1 := by
+  unfold cycStep
+  simp only
+  have hsome : AL.get? (cycSearch fx ff (cycFuel ff) outer [] []) outer ≠ none :=
+    fun e => (get?_search_none_iff fx hv ff outer).mp e h
+  cases hq : AL.get? (cycSearch fx ff (cycFuel ff) outer [] []) outer with
+  | none => exact absurd hq hsome
+  | some path =>
+    simp only
+    have hg := (search_top fx hv ff (cycFuel ff) (cycFuel_ge ff) outer).2 outer path hq
+    rcases hg with ⟨_, hself⟩ | ⟨u, hu, hsu⟩
+    · exact absurd hself (hns outer)
+    · simp only [hu]
+      have hne : u ≠ outer := fun e => hns outer (e ▸ hsu)
+      simp [hne]
+
+/-- **`leave_document` reports nothing ⇔ no recorded fragment reaches itself** -/
+theorem cycErrors_zero_iff (fx : Fixes) (hv : fx.v11 = true) (ff : G) (hns : NoSelf ff) :
+    (cycErrors fx ff).1 = 0 ↔ ∀ f ∈ AL.keys ff, ¬ ReachPlus ff f f := by
+  unfold cycErrors
+  simp only
+  suffices H : ∀ (ks : List String) (b : Bool),
+      ((ks.foldl (cycStep fx ff) (0, [], b)).1 = 0 ↔ ∀ f ∈ ks, ¬ ReachPlus ff f f) from H _ false
+  intro ks
+  induction ks with
+  | nil => intro b; simp
+  | cons k ks ih =>
+    intro b
+    rw [List.foldl_cons]
+    by_cases hk : ReachPlus ff k k
+    · have h1 := cycStep_cyclic fx hv ff hns 0 b k hk
+      have h2 := foldl_cycStep_mono fx ff ks (cycStep fx ff (0, [], b) k)
+      constructor
+      · intro h0; omega
+      · intro hall; exact absurd hk (hall k (List.mem_cons_self ..))
+    · rw [cycStep_acyclic fx hv ff _ k hk, ih b]
+      simp only [List.mem_cons, forall_eq_or_imp, hk, not_false_eq_true, true_and]
+
 end Cyc
 end PyGql.Validate
